@@ -21,7 +21,7 @@ LEVEL_TEXT = ("Seeded exploration. Stall rule evaluated only at stable instants 
 LEVEL_NOTE = "Trusted: simulator loop, recording adapter decorator, body enter/exit logging."
 
 CFG = {"driver": "finish", "p_retry": 50, "p_fail": 35, "fan_max": 4, "retry_delays": [0, 1, 2, 5],
-       "p_external": 40, "p_unhandled": 15}
+       "p_external": 40, "p_unhandled": 15, "p_wait": 20, "wait_timeouts": [None, None, 4, 10]}
 
 
 def check(world, spec, outcome) -> None:
